@@ -661,6 +661,7 @@ func c15(r *ev.Result, tier string) {
 
 	r.Evaluations = int(evals.Load())
 	r.Distinct = int(distinct.Load())
+	c15OneProcessor(r)
 	r.Exhaustive = true
 	r.Assume("perl's pack('u')/unpack('u') (perl 5.36 in this image) is the compatibility reference")
 	r.Assume("contents at large sizes are three fixed patterns; all 2^24 groups and all fills are covered completely, the codec being group-local")
@@ -693,6 +694,16 @@ func enumInto(alpha []byte, buf []byte, from int, f func([]byte)) {
 }
 
 func c15Replay(kind string, raw json.RawMessage) int {
+	if "c15one" == kind {
+		r := ev.New("C15", "quick", "exploration")
+		c15OneProcessor(r)
+		if r.NViolations() > 0 {
+			fmt.Println("reproduced")
+			return 1
+		}
+		fmt.Println("not reproduced")
+		return 0
+	}
 	var c c15Case
 	if err := json.Unmarshal(raw, &c); nil != err {
 		return 2
